@@ -32,6 +32,9 @@ func init() {
 			{ID: "C19.13", Desc: "a list is deleted only together with the entries it names (Location / Content-Location targets included)", Run: func(c *Ctx) { ruleIndexDeleteAfterEntries(c, "C19.13") }, MinSites: 1},
 			{ID: "C19.14", Desc: "the id enumerator of a reference list visits every reference", Run: func(c *Ctx) { ruleRefEnumeratorVisitsAll(c, "C19.14") }, MinSites: 1},
 			{ID: "C19.15", Desc: "a Vary member name that is not valid UTF-8 does not make the index grow (names are stored in a form that survives JSON)", Run: func(c *Ctx) { ruleVaryNamesStorable(c, "C19.15") }, MinSites: 1},
+			{ID: "C19.16", Desc: "the storer searches for the variant's reference for every unusable position", Run: func(c *Ctx) { ruleSearchCoversEveryUnusablePosition(c, "C19.16") }, MinSites: 1},
+			{ID: "C19.17", Desc: "the list that is handed on is the list that was read", Run: func(c *Ctx) { ruleMissPathGetsReadIndex(c, "C19.17") }, MinSites: 1},
+			{ID: "C19.18", Desc: "the filter of the reference list drops the duplicate only", Run: func(c *Ctx) { ruleFilterLoopRunsToEnd(c, "C19.18") }, MinSites: 1},
 		},
 	})
 	register(&Property{
@@ -53,6 +56,7 @@ func init() {
 			{ID: "C20.7", Desc: "inside the stale-while-revalidate window every answer goes through the spawning function; the window uses the current age", Run: func(c *Ctx) { ruleSWRBranchSpawns(c, "C20.7"); ruleSWRWindowAge(c, "C20.7") }, MinSites: 2},
 			{ID: "C20.8", Desc: "the background goroutine releases its waiter only after the reply was handled", Run: func(c *Ctx) { ruleNoReleaseBeforeWriteBack(c, "C20.8") }, MinSites: 1},
 			{ID: "C20.9", Desc: "once spawned the background revalidation sends its request", Run: func(c *Ctx) { ruleBackgroundAlwaysAsks(c, "C20.9") }, MinSites: 1},
+			{ID: "C20.10", Desc: "the stale answer does not depend on the state of the caller's context", Run: func(c *Ctx) { ruleForegroundIgnoresCallerContext(c, "C20.10") }, MinSites: 1},
 		},
 	})
 }
